@@ -910,6 +910,22 @@ def family_cases(tier, part, parts):
             hdr = sorted({o for f in frames for o in range(f['start'], f['hdr_end'] + 2) if 0 < o < total})
             for a, b in itertools.combinations(hdr, 2):
                 cases.append({'mode': mode, 'conns': [copy.deepcopy(conn)], 'steps': [['feed', 0, a], ['feed', 0, b], ['feed', 0, ALL]]})
+    # after the endpoint's OWN close frame the peer's stream goes on (pings, data, finally its close frame): whatever is still delivered must
+    # be exact, for every cut and for every pair (cut inside a control frame, read ending exactly at that frame's end)
+    for mode in ('server', 'client'):
+        rm = rolemask(mode, 7)
+        items = [msg('text', 5, 1, mask=rm), ['ping', b'late-ping', rm], msg('bin', 4, 2, mask=rm), ['pong', b'', rm], ['ping', b'', rm],
+                 msg('text', 130, 3, splits=[60], ctl=[[0, 'ping', b'x']], mask=rm), ['close', b'\x03\xe8', rm], msg('bin', 2, 4, mask=rm)]
+        conn = {'items': items, 'initial': 0}
+        stream, frames, _ = layout(conn)
+        first_end = frames[0]['end']
+        for c in range(first_end + 1, len(stream)):
+            cases.append({'mode': mode, 'conns': [copy.deepcopy(conn)], 'steps': [['feed', 0, first_end], ['close', 0], ['feed', 0, c], ['feed', 0, ALL]]})
+        for f in frames[1:]:
+            for c in range(f['start'] + 1, f['end']):
+                if f['end'] - f['start'] <= 20 or tier == 'thorough' or c <= f['hdr_end'] + 1:
+                    cases.append({'mode': mode, 'conns': [copy.deepcopy(conn)],
+                                  'steps': [['feed', 0, first_end], ['close', 0], ['feed', 0, c], ['feed', 0, f['end']], ['feed', 0, ALL]]})
     rm_of = {'server': 5, 'client': None}
     for mode in ('server', 'client'):
         rm = rm_of[mode]
